@@ -47,9 +47,10 @@ RULE = (
     "default solver; tvd-explicit: split_bregman_tvd and H1_regularization sharing one explicit Jacobi; anderson: AndersonAcceleration "
     "depth 2 x restart {None, 3} x tensor, runs of 1..5 iterations on problems of dimension 5 / 7 / 2x3, also started at the restart "
     "boundary 3; w:<obj>: Newton / Bregman / adaptive Bregman x {direct, amg} (+ Anderson-accelerated) distance objects on pairs P1..P3; "
-    "w-shared: two distance objects on one Grid; cross: one op of every group in one world. Per (group, first op): BFS with full-content "
-    "de-duplication over the real objects to depth 4 (thorough 6) or a fixpoint, and all un-deduplicated sequences of length <= 2 "
-    "(thorough 3; distance objects 3 / 4). Every call on every path is compared with the same call issued first in its own interpreter. "
+    "w-shared: two distance objects on one Grid; cross: one op of every group in one world (depth 2, thorough 3). Per group: BFS with "
+    "full-content de-duplication (objects + default instances + class/module data of the anchored modules) over the real objects to depth 4 "
+    "(thorough 6) or a fixpoint (groups with 0.3 s calls: one BFS per first op, on separate workers), and all un-deduplicated sequences of "
+    "length <= 2 (thorough 3; distance objects 3 / 4). Every call on every path is compared with the same call issued first in its own interpreter. "
     "Non-trivial = observable call preceded by at least one other op; distinct = distinct (group, op history)."
 )
 ASSUMPTIONS = [
